@@ -78,7 +78,9 @@ class Ctx:
         self.seed = seed
         self.level = level
         self.t0 = time.time()
-        self.out = os.path.join(OUT, prop)
+        # a run against a scratch worktree gets its own scratch directory, so that it can run
+        # concurrently with a run against /repo itself
+        self.out = os.path.join(OUT, prop if REPO == "/repo" else "%s@%s" % (prop, os.path.basename(REPO.rstrip("/"))))
         shutil.rmtree(self.out, ignore_errors=True)
         os.makedirs(self.out, exist_ok=True)
         os.makedirs(EVID, exist_ok=True)
@@ -267,7 +269,7 @@ class Ctx:
         bindir = os.path.join(OUT, "bin")
         os.makedirs(bindir, exist_ok=True)
         # one binary per property so parallel checks never race on the file
-        binp = os.path.join(bindir, "replay-%s-%s" % (self.prop, key))
+        binp = os.path.join(bindir, "replay-%s-%s" % (os.path.basename(self.out), key))
         env = dict(os.environ)
         env.update(GOENV)
         cmd = ["go", "build", "-tags", "verif"]
